@@ -468,6 +468,14 @@ def Store.setFromResponse (H : Hash) (s : Store) (now : Int) (name : Str) (qtype
   | .servfail => if isScoped then s else s.recordFailure H now ⟨name, qtype, qclass, keyCD, none⟩ 1 0
   | .other => s
 
+/-- the success tail of `ResponseWriter.WriteMsg`: the answer is stored
+(`answerScoped` = it was filed under a valid clamped ECS SCOPE; otherwise it is
+a shared answer and resets the shared exact question), then exact + covering
+zone history of the audience THAT ASKED (`k.scope` = the client's ECS source
+prefix) is reset. -/
+def Store.writeBackAnswer (H : Hash) (s : Store) (now : Int) (k : QKey) (answerScoped : Bool) : Store :=
+  (s.setFromResponse H now k.name k.qtype k.qclass k.cd answerScoped .useful).resetMatchingFailures H k
+
 /-! ### admission filters -/
 
 /-- why a failure may be private to one request. -/
